@@ -115,7 +115,7 @@ def env_for(outdir, san="asan"):
     e = dict(os.environ)
     e["LD_LIBRARY_PATH"] = outdir
     e["ASAN_OPTIONS"] = "detect_odr_violation=0:detect_leaks=0:abort_on_error=1:symbolize=1:allocator_may_return_null=1:handle_segv=0:handle_sigfpe=0:handle_sigbus=0:handle_abort=0"
-    e["TSAN_OPTIONS"] = "halt_on_error=0:report_signal_unsafe=0:exitcode=0"
+    e["TSAN_OPTIONS"] = "halt_on_error=0:report_signal_unsafe=0:exitcode=66"
     e.pop("LIBERASURECODE_WRITE_LEGACY_CRC", None)
     return e
 
